@@ -841,11 +841,11 @@ Section Generic.
     - rewrite HI. cbn [length]. lia.
   Qed.
 
-  Theorem generic_roundtrip oracle simple st0 frames out :
+  Theorem generic_roundtrip oracle has_meta simple st0 frames out :
     e_W st0 = W -> e_H st0 = H -> e_opts st0 = op -> e_recs st0 = [] -> e_fcount st0 = 0 ->
     e_prev st0 = None ->
     frames <> [] -> Forall wf_input frames ->
-    close simple (run_frames fx oracle st0 frames) = Some out ->
+    close has_meta simple (run_frames fx oracle st0 frames) = Some out ->
     same_show_by pi W H (eo_loop op) out (playback rt_ll rt_ly fx out) (inputs_of W H frames).
   Proof.
     intros HW0 HH0 Hop0 Hrecs0 Hfc0 Hprev0 Hne Hwf Hclose.
@@ -861,9 +861,9 @@ Section Generic.
       - exists last, []. split; [reflexivity|auto].
       - exists a, (init' ++ [last]). split; [reflexivity|]. intros Habs; discriminate. }
     destruct Hr0 as (r0 & tl & Hr0 & Hr0l). rewrite Hr0 in Hclose.
-    destruct ((Z.of_nat (length (init ++ [last])) =? 1) && simple) eqn:Hstill.
+    destruct ((Z.of_nat (length (init ++ [last])) =? 1) && negb has_meta && simple) eqn:Hstill.
     - (* the single-frame still written by SimpleEncodeFunc *)
-      apply andb_true_iff in Hstill as [Hone _].
+      apply andb_true_iff in Hstill as [Hone _]. apply andb_true_iff in Hone as [Hone _].
       assert (Hinit : init = []).
       { destruct init as [|a init']; [reflexivity|]. rewrite app_length in Hone. cbn [length] in Hone. lia. }
       subst init. injection Hclose as <-.
